@@ -1153,6 +1153,19 @@ class Evaluator:
                 self.ev(body, fr)
             return UNIT
         if not isinstance(it, IterV):
+            ity = self.F.ty(it_expr) or ""
+            base = self.deref(it)
+            if isinstance(base, RatFunc) and _single_atom(base) is not None and ("[" in ity):
+                # `for x in slice`: the generic element; `&mut [T]` yields write-through references
+                if ity.startswith("&mut") and (isinstance(it, MutRef) or self.is_place(it_expr)):
+                    tgt = it.target if isinstance(it, MutRef) else it_expr
+                    tfr = it.frame if isinstance(it, MutRef) else fr
+                    while tgt.get("k") == "ref":
+                        tgt = tgt["e"]
+                    it = IterV(ElemRef(tgt, tfr, self.elem_of(base)))
+                else:
+                    it = IterV(self.elem_of(base))
+        if not isinstance(it, IterV):
             raise Opaque("for loop over %r" % (it,))
         refs = []
         _collect_refs(it.elem, refs)
@@ -1296,7 +1309,11 @@ class Evaluator:
                 v = self.finish(fr2, v)
             return v
         if isinstance(f, tuple) and f and f[0] == "fnref":
-            return self.call_callee(f[1], args, fr, e)
+            self._fnref_apply = True
+            try:
+                return self.call_callee(f[1], args, fr, e)
+            finally:
+                self._fnref_apply = False
         if isinstance(f, RatFunc) and _single_atom(f) is not None:
             return self.uninterpreted("call:" + _single_atom(f).name, args)
         raise Opaque("call of %r" % (f,))
@@ -1322,7 +1339,7 @@ class Evaluator:
         raw_args = args
         keep_refs = _OPKEY.get(spath) in _REF_OPS or _OPKEY.get(rpath) in _REF_OPS
         if not keep_refs:
-            args = [self.deref(a) if isinstance(a, MutRef) else a for a in args]
+            args = [self.deref(a) if isinstance(a, (MutRef, ElemRef)) else a for a in args]
         if not local_std and spath.startswith(("std::ops::", "core::ops::")) and args and isinstance(self.deref(args[0]), Struct):
             b2 = self.struct_op_impl(c, [self.deref(a) for a in args])
             if b2 is not None and fr.depth < self.ctx.max_depth:
@@ -1363,7 +1380,17 @@ class Evaluator:
             for i, a in enumerate(raw_args):
                 if isinstance(a, MutRef):
                     self.assign(a.target, self.uninterpreted("mut%d:%s" % (i, nm), args), a.frame)
+                elif isinstance(a, ElemRef) and (i > 0 or getattr(self, "_fnref_apply", False) or (e is not None and e.get("k") == "mcall" and self._recv_is_mut(c, e))):
+                    a.cur = self.uninterpreted("mut%d:%s" % (i, nm), args)
+                    a.written = True
         return res
+
+    def _recv_is_mut(self, c, e):
+        # receiver type of the callee: `&mut Self` methods mutate the element
+        b = self.F.body_by_id.get(c.get("i")) if c.get("i") is not None else None
+        r = e.get("r", {})
+        t = self.F.ty(r) or ""
+        return t.startswith("&mut") or r.get("adj", "").endswith("m")
 
     def struct_op_impl(self, c, args):
         """std::ops trait applied to a palette struct through a where-clause: pick the impl by
@@ -1582,6 +1609,53 @@ class Evaluator:
     def op_clamp_max_assign(self, args, fr, c, e):
         cur = self.deref(args[0])
         self.write_through(args[0], self.ctx.sapp("min", [cur, self.deref(args[1])]), fr, e)
+        return UNIT
+
+    def _op_assign(self, op, args, fr, c, e):
+        cur = self.deref(args[0])
+        rhs = self.deref(args[1])
+        if isinstance(cur, Struct) and cur.path in self.F.adt_by_path:
+            return NotImplemented
+        self.write_through(args[0], self.binop(op, cur, rhs), fr, e)
+        return UNIT
+
+    def op_add_assign(self, args, fr, c, e):
+        return self._op_assign("+", args, fr, c, e)
+
+    def op_sub_assign(self, args, fr, c, e):
+        return self._op_assign("-", args, fr, c, e)
+
+    def op_mul_assign(self, args, fr, c, e):
+        return self._op_assign("*", args, fr, c, e)
+
+    def op_div_assign(self, args, fr, c, e):
+        return self._op_assign("/", args, fr, c, e)
+
+    def op_slice_iter_mut(self, args, fr, c, e):
+        a0 = args[0]
+        base = self.deref(a0)
+        if isinstance(a0, MutRef):
+            return IterV(ElemRef(a0.target, a0.frame, self.elem_of(base)))
+        tgt = e["r"] if e is not None and e.get("k") == "mcall" else None
+        while tgt is not None and tgt.get("k") == "ref":
+            tgt = tgt["e"]
+        if tgt is not None and self.is_place(tgt):
+            return IterV(ElemRef(tgt, fr, self.elem_of(base)))
+        raise Opaque("iter_mut of non-place")
+
+    def op_slice_iter(self, args, fr, c, e):
+        return IterV(self.elem_of(self.deref(args[0])))
+
+    def op_iter_for_each(self, args, fr, c, e):
+        it, f = args
+        if not isinstance(it, IterV):
+            raise Opaque("for_each over %r" % (it,))
+        refs = []
+        _collect_refs(it.elem, refs)
+        self.apply(f, [it.elem], fr, e)
+        for r in refs:
+            if r.written:
+                self.assign(r.target, elementwise(r.cur), r.frame)
         return UNIT
 
     def op_clamp_min(self, args, fr, c, e):
@@ -1918,7 +1992,16 @@ _reg(["num::Clamp::clamp_max"], "clamp_max")
 _reg(["num::ClampAssign::clamp_assign"], "clamp_assign")
 _reg(["num::ClampAssign::clamp_min_assign"], "clamp_min_assign")
 _reg(["num::ClampAssign::clamp_max_assign"], "clamp_max_assign")
-_REF_OPS = ("into_array_mut", "clamp_assign", "clamp_min_assign", "clamp_max_assign")
+for _t in ("std", "core"):
+    _reg(["%s::ops::AddAssign::add_assign" % _t], "add_assign")
+    _reg(["%s::ops::SubAssign::sub_assign" % _t], "sub_assign")
+    _reg(["%s::ops::MulAssign::mul_assign" % _t], "mul_assign")
+    _reg(["%s::ops::DivAssign::div_assign" % _t], "div_assign")
+    _reg(["%s::slice::<impl [T]>::iter_mut" % _t], "slice_iter_mut")
+    _reg(["%s::slice::<impl [T]>::iter" % _t], "slice_iter")
+    _reg(["%s::iter::Iterator::for_each" % _t], "iter_for_each")
+_REF_OPS = ("into_array_mut", "clamp_assign", "clamp_min_assign", "clamp_max_assign", "add_assign", "sub_assign", "mul_assign", "div_assign",
+            "slice_iter_mut", "iter_for_each")
 _reg(["num::MulAdd::mul_add"], "mul_add")
 _reg(["num::MulSub::mul_sub"], "mul_sub")
 _reg(["num::Signum::signum"], "fn1.signum")
